@@ -155,7 +155,12 @@ class State:
     def alloc(self, v):
         self.nobj += 1; self.heap[self.nobj] = v; return self.nobj
     def ev(self, _k, **kw):
-        d = dict(kw); d['k'] = _k; d['locks'] = tuple(sorted(self.aux.get('locks', ()))); self.events.append(d); return d
+        d = dict(kw); d['k'] = _k; d['locks'] = tuple(sorted(self.aux.get('locks', ())))
+        who = None
+        for f in self.frames:
+            if f.tag is not None: who = f.tag
+        d['who'] = who or 'A'
+        self.events.append(d); return d
     def evs(self, kind):
         return [e for e in self.events if e['k'] == kind]
 
@@ -1109,6 +1114,9 @@ class Exec:
                 st.counter += 1; eq = z3.Bool(f'ifaceeq!{st.counter}')
             else: eq = z3.BoolVal(False)
             return eq if tok == '==' else z3.Not(eq)
+        if isinstance(x, BytesV) or isinstance(y, BytesV):
+            # []byte(string) compared with nil: a converted / decoded byte string is a non-nil slice
+            return z3.BoolVal(tok != '==')
         if isinstance(x, SliceV):
             x = self.resolve_slice(st, x)
             eq = x.obj is None and x.len == 0
